@@ -456,7 +456,7 @@ pub fn run(ctx: &Ctx) -> i32 {
             return rep.finish();
         },
     };
-    let n = ctx.scale(1500, 12000);
+    let n = ctx.scale(4000, 12000);
     lane(ctx, &mut rep, &so, n, 0xC11, false, "C11");
     rep.finish()
 }
